@@ -51,7 +51,13 @@ TrDetect ==
   /\ TblsMatch(last'.exp.tbls, Ev.obs.tbls) /\ BufsMatch(last'.exp.bufs, Ev.obs.bufs)
   /\ last'.exp.adj = AdjOf(Ev.obs.adj)
 
-TrNext == TrSend \/ TrMove \/ TrTick \/ TrCut \/ TrRestore \/ TrDetect
+TrDetectBusy ==
+  /\ IsEvent("DetectBusy") /\ DetectBusy(Ev.args.h, Ev.args.d) /\ Ev.wf
+  /\ TblsMatch(last'.exp.tbls, Ev.obs.tbls) /\ BufsMatch(last'.exp.bufs, Ev.obs.bufs)
+  /\ last'.exp.adj = AdjOf(Ev.obs.adj)
+  /\ last'.exp.again = Ev.obs.again /\ last'.exp.lost = Ev.obs.lost
+
+TrNext == TrSend \/ TrMove \/ TrTick \/ TrCut \/ TrRestore \/ TrDetect \/ TrDetectBusy
 TrSpec == TrInit /\ [][TrNext]_tvars
 
 Progress == TLCSet(tid, IF TLCGet(tid) < l - 1 THEN l - 1 ELSE TLCGet(tid))
